@@ -169,6 +169,7 @@ func runC02(c *Ctx) {
 	ruleArgmax(c, "ARGMAX", p.ModulePkgs(), 2)
 	c02CancelGated(c, "CANCEL-GATED")
 	c02ImageListsSorted(c)
+	c09CtxErrRecorded(c)
 	ruleIndexedReturn(c, "INDEXED-RETURN-SORTED", c.P.ModulePkgs())
 	if q := p.Pkg("private/bufpkg/bufmodule"); q != nil {
 		ruleFilteredPreferred(c, "TARGETS-PREFERRED", q, 1)
